@@ -12,6 +12,10 @@ pub const TBL_NAMES: [&str; 13] = [
     "pawndbl.b", "pawncap.w", "pawncap.b", "between",
 ];
 
+/// indices far outside every range, around the powers of two where a narrowing cast (`as u8`, `as u16`, `as u32`) would wrap
+/// (fifth wave, C18-e)
+pub const FAR_IDX: [usize; 17] = [255, 256, 257, 263, 264, 511, 512, 519, 65535, 65536, 65543, 4294967295, 4294967296, 4294967303,
+    usize::MAX - 255, usize::MAX - 248, usize::MAX];
 pub const PRIM_KINDS: [&str; 9] = ["square", "file", "rank", "color", "piece", "cr", "bbfr", "offsets", "misc"];
 
 pub fn obs_tbl(name: &str) -> String {
@@ -70,7 +74,7 @@ fn ri<T>(r: Result<T, LibChessError>, f: impl Fn(T) -> usize) -> String {
 /// computed without a value).  A panic anywhere inside a kind gives `v=panic`.
 pub fn obs_prim(kind: &str) -> String {
     let v = g(|| match kind {
-        "square" => (0..=70u32)
+        "square" => (0..=255u32)
             .map(|i| match Square::new(i as u8) {
                 Err(_) => format!("{i}:!"),
                 Ok(s) => {
@@ -93,7 +97,7 @@ pub fn obs_prim(kind: &str) -> String {
             })
             .collect::<Vec<_>>()
             .join(";"),
-        "file" => (0..=9usize)
+        "file" => (0..=9usize).chain(FAR_IDX)
             .map(|i| match File::from_index(i) {
                 Err(_) => format!("{i}:!"),
                 Ok(f) => {
@@ -110,7 +114,7 @@ pub fn obs_prim(kind: &str) -> String {
             })
             .collect::<Vec<_>>()
             .join(";"),
-        "rank" => (0..=9usize)
+        "rank" => (0..=9usize).chain(FAR_IDX)
             .map(|i| match Rank::from_index(i) {
                 Err(_) => format!("{i}:!"),
                 Ok(r) => {
@@ -127,7 +131,7 @@ pub fn obs_prim(kind: &str) -> String {
             })
             .collect::<Vec<_>>()
             .join(";"),
-        "color" => (0..=3usize)
+        "color" => (0..=3usize).chain(FAR_IDX)
             .map(|i| match Color::from_index(i) {
                 Err(_) => format!("{i}:!"),
                 Ok(c) => format!(
@@ -141,7 +145,7 @@ pub fn obs_prim(kind: &str) -> String {
             })
             .collect::<Vec<_>>()
             .join(";"),
-        "piece" => (0..=7usize)
+        "piece" => (0..=7usize).chain(FAR_IDX)
             .map(|i| match PieceType::from_index(i) {
                 Err(_) => format!("{i}:!"),
                 Ok(p) => {
@@ -158,7 +162,7 @@ pub fn obs_prim(kind: &str) -> String {
             .collect::<Vec<_>>()
             .join(";"),
         "cr" => {
-            let mut recs: Vec<String> = (0..=5usize)
+            let mut recs: Vec<String> = (0..=5usize).chain(FAR_IDX)
                 .map(|i| match CastlingRights::from_index(i) {
                     Err(_) => format!("{i}:!"),
                     Ok(r) => {
@@ -658,6 +662,105 @@ pub fn tag_section(pgn: &str) -> &str {
     match pgn.find("\n\n") {
         Some(i) => &pgn[..i + 1],
         None => pgn,
+    }
+}
+
+// ---------------------------------------------------------------------------------------------
+// g.probe: occurrence counter asked about a board that is NOT in the history but whose hash agrees with a history
+// position on a LINEAR PROJECTION of the 64 bits (fifth wave, C11-e: counter keyed by a truncated hash)
+// ---------------------------------------------------------------------------------------------
+
+pub const PROJECTIONS: [(&str, fn(u64) -> u64); 6] = [
+    ("lo32", |h| h & 0xffff_ffff),
+    ("hi32", |h| h >> 32),
+    ("fold32", |h| (h >> 32) ^ (h & 0xffff_ffff)),
+    ("lo16", |h| h & 0xffff),
+    ("fold16", |h| (h ^ (h >> 16) ^ (h >> 32) ^ (h >> 48)) & 0xffff),
+    ("lo48", |h| h & 0xffff_ffff_ffff),
+];
+
+/// A valid position `q != p` with `proj(hash(q)) == proj(hash(p))`: `p` plus extra officers on empty squares whose piece-square
+/// keys XOR to zero under the projection (Gaussian elimination over GF(2); the Zobrist hash is XOR-linear in the men).  The
+/// extras are chosen so that the side not to move is not in check (`setup` decides; a few random type assignments are tried).
+pub fn colliding_board(p: &ChessBoard, proj: fn(u64) -> u64, rng: &mut crate::util::Rng) -> Option<ChessBoard> {
+    let z = &*ZOBRIST_TABLES;
+    let cells: Vec<Option<Piece>> = (0..64).map(|i| p.get_piece_on(sq(i))).collect();
+    let mut reserved = [false; 64];
+    if let Some(e) = p.get_en_passant() {
+        let i = e.to_index();
+        reserved[i] = true;
+        // the origin square of the pushed pawn lies one rank beyond the en-passant square (from the mover's point of view)
+        let o = if p.get_side_to_move() == Color::White { i + 8 } else { i.wrapping_sub(8) };
+        if o < 64 {
+            reserved[o] = true;
+        }
+    }
+    let officers = [PieceType::Knight, PieceType::Bishop, PieceType::Rook, PieceType::Queen];
+    for _attempt in 0..24 {
+        let mut cand: Vec<(usize, Piece)> = Vec::new();
+        for i in 0..64 {
+            if cells[i].is_none() && !reserved[i] && cand.len() < 64 {
+                let c = if rng.pct(50) { Color::White } else { Color::Black };
+                cand.push((i, Piece(officers[rng.below(4)], c)));
+            }
+        }
+        // basis: (vector, combination mask, pivot bit)
+        let mut basis: Vec<(u64, u64)> = Vec::new();
+        let mut found: Option<u64> = None;
+        for (k, (i, pc)) in cand.iter().enumerate() {
+            let mut v = proj(z.get_piece_square_value(*pc, sq(*i)));
+            let mut c = 1u64 << k;
+            for (bv, bc) in basis.iter() {
+                let pivot = 1u64 << (63 - bv.leading_zeros());
+                if v & pivot != 0 {
+                    v ^= bv;
+                    c ^= bc;
+                }
+            }
+            if v == 0 {
+                found = Some(c);
+                break;
+            }
+            basis.push((v, c));
+            // keep the basis reduced enough: sort by pivot descending so that earlier pivots are eliminated first
+            basis.sort_by(|a, b| b.0.cmp(&a.0));
+        }
+        let combo = match found { Some(c) => c, None => continue };
+        let mut pcs: Vec<(Square, Piece)> = (0..64).filter_map(|i| cells[i].map(|x| (sq(i), x))).collect();
+        for (k, (i, pc)) in cand.iter().enumerate() {
+            if combo >> k & 1 == 1 {
+                pcs.push((sq(*i), *pc));
+            }
+        }
+        let q = catch(|| {
+            ChessBoard::setup(
+                &pcs,
+                p.get_side_to_move(),
+                p.get_castle_rights(Color::White),
+                p.get_castle_rights(Color::Black),
+                p.get_en_passant(),
+                p.get_moves_since_capture_or_pawn_move(),
+                p.get_move_number(),
+            )
+            .ok()
+        })
+        .flatten();
+        if let Some(q) = q {
+            if proj(q.get_hash()) == proj(p.get_hash()) && q.get_hash() != p.get_hash() {
+                return Some(q);
+            }
+        }
+    }
+    None
+}
+
+impl Session {
+    /// `g.probe <raw>`: `get_position_counter` of an arbitrary board
+    pub fn op_probe(&self, q: &ChessBoard) -> String {
+        match self.game.as_ref() {
+            None => "r=nosession".to_string(),
+            Some(gm) => format!("cnt={}", g(|| gm.get_position_counter(q).to_string())),
+        }
     }
 }
 
